@@ -617,6 +617,9 @@ func (s *Sim) run() {
 	}
 	s.k = k
 	s.env = NewEnv(k)
+	if s.plan.SlowCC && !s.plan.Concurrent {
+		s.env.SlowRemove = 250 * time.Millisecond
+	}
 	s.cc = &FakeCC{env: s.env}
 	k.Install()
 	defer k.Uninstall()
@@ -726,6 +729,7 @@ func (s *Sim) run() {
 			s.drain()
 			continue
 		}
+		s.waitSlowCC()
 		if s.overlapOpen {
 			// (the connection report may have turned out to be no event at all:
 			// whatever was left running runs to the end before anything is judged)
@@ -1167,6 +1171,29 @@ func sameLengthVariant(js []byte) []byte {
 		}
 	}
 	return nil
+}
+
+// waitSlowCC: a balancer callback sleeps inside a ClientConn call that takes
+// simulated time (plan.SlowCC): the clock moves on in steps of 50 ms - poll
+// timers of waiting calls fire meanwhile - until the callback has returned.
+//
+//go:norace
+func (s *Sim) waitSlowCC() {
+	if s.env.SlowRemove == 0 || s.conc {
+		return
+	}
+	for i := 0; i < 20 && !s.stop; i++ {
+		busy := false
+		for _, t := range s.k.Blocked(kern.BlockedSleep) {
+			if tg, ok := t.Tag.(*TaskTag); ok && tg.Phase == PhCore {
+				busy = true
+			}
+		}
+		if !busy {
+			return
+		}
+		s.k.Advance(50 * time.Millisecond)
+	}
 }
 
 // overlapsConn: operation i is followed - after more operations flagged
@@ -2054,6 +2081,10 @@ func (s *Sim) heal() {
 	i := len(s.plan.Ops)
 	s.healing = true
 	s.env.FailNew = 0
+	if s.env.SlowRemove > 0 {
+		s.res.Count("fault:clientconn_call_that_takes_simulated_time", s.env.NSlow)
+		s.env.SlowRemove = 0
+	}
 	s.repicks(true)
 	s.k.Quiesce()
 	s.afterOp()
@@ -2239,6 +2270,10 @@ func (s *Sim) closePhase() {
 	i := len(s.plan.Ops)
 	s.healing = true
 	s.env.FailNew = 0
+	if s.env.SlowRemove > 0 {
+		s.res.Count("fault:clientconn_call_that_takes_simulated_time", s.env.NSlow)
+		s.env.SlowRemove = 0
+	}
 	s.repicks(true)
 	s.k.Quiesce()
 	s.afterOp()
